@@ -63,6 +63,12 @@ def h_pairs(ctx, a, others):
         clsb.marshall_cdb(clsb.unmarshall_cdb(cb.cdb))
         _same_obs(ctx, "after creating and using %s" % b, _observe(cls, ca, probe), solo)
         del cb
+    # a construction that fails half-way (an argument the encoder cannot take) must not disturb existing commands
+    a0, e0 = K.concrete_args(spec)
+    for bad in list(a0)[:2]:
+        st_name = "spc" if "spc" in spec["sets"] else list(spec["sets"])[0]
+        st, r = ctx.attempt(K.build, spec, K.lookup_opcode(spec, st_name), dict(a0, **{bad: "not-a-number"}), e0)
+        _same_obs(ctx, "after a failed construction (%s)" % bad, _observe(cls, ca, probe), solo)
     # a second instance of A built after all the others encodes like the first
     spec2, cls2, ca2 = _build(ctx, a, "a_")
     ctx.check("a command built after other commands has the same CDB as one built before them",
